@@ -45,7 +45,8 @@ PENDING_ONLY = False
 def do_run(match, checks, tier, tests=True, seeds=(None,)):
     for name in sorted(os.listdir(SEEDED)):
         d = os.path.join(SEEDED, name)
-        if not os.path.isdir(d) or (match and match not in name):
+        exact = bool(match) and match.count("-") == 1 and match.split("-")[1].isdigit()
+        if not os.path.isdir(d) or (match and ((exact and match != name) or (not exact and match not in name))):
             continue
         meta = json.load(open(os.path.join(d, "meta.json")))
         if PENDING_ONLY and meta.get("ran"):
